@@ -185,6 +185,7 @@ from vgi_rpc.rpc._wire import (
     _read_request,
     _read_stream_header,
     _read_unary_response,
+    _RequestFramingError,
     _send_request,
     _validate_call_signature,
     _validate_params,
@@ -291,6 +292,7 @@ __all__ = [
     "_read_batch_with_log_check",
     "_read_raw_stream_header",
     "_read_request",
+    "_RequestFramingError",
     "_read_stream_header",
     "_read_unary_response",
     "_send_request",
